@@ -639,8 +639,10 @@ pub fn replay_main(engine: &Engine, file: &Path) -> i32 {
     let (c1, r1) = run_replay_once(&exe, engine, file);
     let (c2, r2) = run_replay_once(&exe, engine, file);
     let v1 = r1.as_ref().map(|r| r["violations"].clone());
-    let v2 = r2.as_ref().map(|r| r["violations"].clone());
-    if c1 != c2 || v1 != v2 {
+    // observations are compared by the violated cases (keys); the free-text explanation may
+    // quote a panic message of the binary, which contains a thread id
+    let keys = |r: &Option<Value>| -> Vec<String> { r.as_ref().and_then(|r| r["violations"].as_array().map(|a| a.iter().map(|v| v["key"].as_str().unwrap_or("").to_string()).collect())).unwrap_or_default() };
+    if c1 != c2 || keys(&r1) != keys(&r2) {
         println!("replay diverged between two runs: {:?} vs {:?} (non-determinism: machinery failure)", c1, c2);
         return 2;
     }
